@@ -144,6 +144,8 @@ impl<'a> From<AnyChunk<'a>> for AnyStats<'a> {
 #[derive(Clone, Copy, PartialEq, Eq)]
 pub struct AnyChunk<'a> {
     header: NonNull<ChunkHeader>,
+    /// The size of the actual `ChunkHeader<A>`; it depends on the base allocator type.
+    header_size: usize,
     marker: PhantomData<&'a ()>,
 }
 
@@ -154,6 +156,7 @@ where
     fn from(value: Chunk<'_, A, S>) -> Self {
         Self {
             header: value.chunk.header().cast(),
+            header_size: size_of::<ChunkHeader<A>>(),
             marker: PhantomData,
         }
     }
@@ -186,6 +189,7 @@ impl<'a> AnyChunk<'a> {
     pub fn prev(self) -> Option<Self> {
         Some(AnyChunk {
             header: self.header().prev.get()?,
+            header_size: self.header_size,
             marker: PhantomData,
         })
     }
@@ -196,6 +200,7 @@ impl<'a> AnyChunk<'a> {
     pub fn next(self) -> Option<Self> {
         Some(AnyChunk {
             header: self.header().next.get()?,
+            header_size: self.header_size,
             marker: PhantomData,
         })
     }
@@ -326,7 +331,7 @@ impl<'a> AnyChunk<'a> {
     }
 
     fn after_header(self) -> NonNull<u8> {
-        unsafe { self.header.add(1).cast() }
+        unsafe { self.header.cast::<u8>().add(self.header_size) }
     }
 }
 
